@@ -101,7 +101,7 @@ Qed.
 Lemma read_row_bad_count L oids e segs a b rest :
   read_full 1 segs <> None -> read_full 2 segs = Some ([a; b], rest) ->
   rd16 a b <> 65535 -> rd16 a b <> lenZ oids ->
-  fst (read_row L oids e {| b_segs := segs; b_started := true; b_over := false |}) = RFail.
+  fst (read_row L oids e {| b_segs := segs; b_started := true; b_over := false |}) = CFail.
 Proof.
   intros H1 H2 Ht Hc. unfold read_row, header_segs. cbn [b_over b_started b_segs].
   destruct (read_full 1 segs); [|contradiction]. rewrite H2.
